@@ -14,6 +14,11 @@ Proof. exact strong_history_num_traj. Qed.
 Print Assumptions C20_num_traj_preserved.
 
 (* weak front-end: trajectories executed and counts returned do not depend on the history either; shots is restored *)
+Theorem C20_history_independent_analog_backends : forall h s noisy p,
+  snd (run_analog s noisy (analog_history h p)) = snd (run_analog s noisy p) /\ num_traj (analog_history h p) = num_traj p.
+Proof. intros h s noisy p. split; [apply analog_history_independent|apply analog_history_num_traj]. Qed.
+Print Assumptions C20_history_independent_analog_backends.
+
 Theorem C20_history_independent_weak : forall h noisy p,
   snd (fst (run_weak noisy (weak_history h p))) = snd (fst (run_weak noisy p)) /\
   snd (run_weak noisy (weak_history h p)) = snd (run_weak noisy p).
